@@ -8,6 +8,7 @@ import GeoVerif.Driver.Codec
 import GeoVerif.Driver.Ws
 import GeoVerif.Driver.Life
 import GeoVerif.Driver.Pair
+import GeoVerif.Driver.Valid
 open Lean GeoVerif.Driver
 
 structure DSt where
@@ -30,6 +31,7 @@ def stepLine (st : DSt) (line : String) : DSt × String :=
     | "codec" => (st, (CodecD.handle j).compress)
     | "ws" => let (s, o) := WsD.handle st.ws j; ({ st with ws := s }, o.compress)
     | "pair" => (st, (PairD.handle j).compress)
+    | "valid" => (st, (ValidD.handle j).compress)
     | "life" => let (s, o) := LifeD.handle st.life j; ({ st with life := s }, o.compress)
     | _ => (st, "\"bad-model\"")
 
